@@ -97,7 +97,7 @@ pub fn run(prop: &str) {
             rep.sample(json!({"workload":name,"leaf_history":s}));
         }
         for mut v in vio {
-            if v.key.starts_with(&format!("{prop}:")) {
+            if v.key.starts_with(&format!("{prop}:")) || v.key.starts_with("panic:") {
                 v.replay["workload"] = json!(name);
                 v.replay["driver"] = json!("hdrive");
                 found.push(v);
